@@ -11,7 +11,11 @@ Three kinds of generated cases:
 ``detector`` one detector built directly (Flat1d/Flat2d/Circular/Cylindrical/
              Spherical) with generic axes;
 ``factory``  parallel_beam_geometry / cone_beam_geometry / helical_geometry
-             over a generated reconstruction space.
+             over a generated reconstruction space;
+``astra-vec`` the pure-NumPy geometry -> ASTRA vector conversions of
+             ``astra_setup.py`` (cone_vec, fanflat_vec, parallel3d_vec) for
+             generated flat-detector Fan / Cone / Parallel3dAxis / Euler
+             geometries with off-centre detector partitions.
 
 Oracle: the NumPy reference model ``vlib/ref/geomref.py`` +
 ``vlib/ref/rotations.py`` (written from the docstrings, evaluated one
@@ -79,9 +83,9 @@ LEVEL_TEXT = ('Generated-input search over class x constructor/frommatrix x '
 LEVEL_NOTE = ('Trusted: NumPy, Hypothesis, vlib/ref/rotations.py and '
               'vlib/ref/geomref.py (formulas quoted from the docstrings), '
               'odl partitions (property C14) for the angle grid. The ASTRA '
-              'conversion layer (astra_setup.py) cannot be executed here '
-              '(ASTRA absent): only the geometry side of that anchor is '
-              'decided.')
+              'toolbox itself is absent: of astra_setup.py only the pure-NumPy '
+              'geometry -> vector conversions (astra_*_geom_to_vec) are '
+              'decided, not astra_projection_geometry / data / projector.')
 DESIGN_REF = 'DESIGN.md section 5, C19'
 BUDGET = {'quick': 16000, 'thorough': 160000}
 EPS = float(np.finfo(float).eps)
@@ -120,7 +124,7 @@ ASSUMPTIONS = [
     'shift functions follow the documented contract (one row per angle) and '
     'are evaluated with scalar and 1-D angles only',
     'negative slicing steps are not generated (partitions must be ascending)',
-    'ASTRA conversion is not executed',
+    'of astra_setup.py only the astra_*_geom_to_vec conversions run (no ASTRA)',
 ]
 RULE = ('Hypothesis draws a case descriptor (kind geom/detector/factory; '
         'class, init vectors, partitions, parameter pattern with explicit '
@@ -1256,6 +1260,29 @@ def _cmp_snapshot(new, old, tol, sig, what):
                         '{:.3g})'.format(what, err, tol))
 
 
+def _slice(geom, index, cname):
+    dn = type(geom.detector).__name__
+    try:
+        return geom[index]
+    except ValueError as e:
+        if 'not perpendicular' in str(e) and _odl_frame(e):
+            # known finding K10: the curved detectors compare the dot product
+            # of their axes with 0.0 exactly; the axes the library re-derives
+            # from the normalised rotation axis fail that test by rounding
+            raise Violation(
+                'C19|slice-raise|curved-axes-not-exactly-perpendicular|{}|{}'
+                ''.format(cname, dn), str(e)[:300])
+        raise Violation('C19|slice-raise|{}|{}|{}'.format(
+            _odl_frame(e) or 'harness', cname, dn),
+            '{}: {}'.format(type(e).__name__, str(e)[:300]))
+    except Exception as e:  # noqa
+        if _odl_frame(e) is None:
+            raise
+        raise Violation('C19|slice-raise|{}|{}|{}'.format(
+            _odl_frame(e), cname, dn),
+            '{}: {}'.format(type(e).__name__, str(e)[:300]))
+
+
 def _check_slice(geom, ref, sl, cname, argcls, n, M, D, tol, dlo, dhi,
                  divergent, strata, passed):
     ai, index = _slice_index(sl)
@@ -1274,8 +1301,7 @@ def _check_slice(geom, ref, sl, cname, argcls, n, M, D, tol, dlo, dhi,
     sub = sel[:6]
     sig = 'C19|slice|' + cname + '|{}|args=' + argcls
     before = _snapshot(geom, sub, dpts, divergent, n)
-    s1 = _call('C19|slice-raise', cname + '|' + type(geom.detector).__name__,
-               geom.__getitem__, index)
+    s1 = _slice(geom, index, cname)
     if type(s1).__name__ != cname:
         raise Violation(sig.format('class'), type(s1).__name__)
     got_angles = np.atleast_1d(np.array(s1.angles, dtype=float))
@@ -1300,8 +1326,7 @@ def _check_slice(geom, ref, sl, cname, argcls, n, M, D, tol, dlo, dhi,
                   'the original geometry after slicing')
     _check_purity(passed, cname)
     if sl.get('repeat'):
-        s2 = _call('C19|slice-raise', cname + '|' + type(geom.detector).__name__,
-                   geom.__getitem__, index)
+        s2 = _slice(geom, index, cname)
         second = _snapshot(s2, sub, dpts, divergent, n)
         _cmp_snapshot(second, before, tol,
                       psig.format('second-slice-differs') + '|{}',
@@ -1598,6 +1623,117 @@ def run_factory(desc):
     return Outcome('ok', strata=strata, nontrivial=True)
 
 
+# --------------------------------------------------------------------------
+# geometry -> ASTRA vector conversions (pure NumPy, callable without ASTRA)
+
+ASTRA_FUNCS = {'fan': 'astra_conebeam_2d_geom_to_vec',
+               'cone': 'astra_conebeam_3d_geom_to_vec',
+               'par3d_axis': 'astra_parallel_3d_geom_to_vec',
+               'par3d_euler': 'astra_parallel_3d_geom_to_vec'}
+
+
+def _pixel_centres(pd):
+    """Grid points of a uniform partition descriptor (pixel centres)."""
+    n, lo, hi = int(pd['n']), float(pd['min']), float(pd['max'])
+    if pd.get('nob'):
+        return lo + np.arange(n) * (hi - lo) / (n - 1)
+    return lo + (np.arange(n) + 0.5) * (hi - lo) / n
+
+
+def run_astra(desc):
+    """Documented vector layout (docstrings + comments of astra_setup.py):
+
+    cone_vec / parallel3d_vec rows ``(src | ray, d, u, v)``, every triple in
+    ASTRA's (z, y, x) component order, ``d`` the centre of the detector,
+    ``u`` the vector from detector pixel (0, 0) to (0, 1), ``v`` from (0, 0)
+    to (1, 0); ``ray = -(detector-to-source vector)``.
+    fanflat_vec rows ``(src, d, u)`` with the whole geometry rotated by
+    -90 degrees ("we subtract pi/2 from the geometry angles").
+    Hence, for an ``n0 x n1`` detector, pixel ``(i, j)`` has its centre at
+    ``d + (i - (n0-1)/2) v + (j - (n1-1)/2) u``, which must be
+    ``det_point_position`` at the (i, j)-th pixel-centre parameters, and
+    ``src`` must be ``src_position`` - both taken from the reference model.
+    """
+    from odl.tomo.backends import astra_setup
+    g = desc['g']
+    cls = g['cls']
+    cname = CLS[cls]
+    n = geomref.NDIM[cls]
+    fname = ASTRA_FUNCS[cls]
+    mode = g.get('mode', 'ctor')
+    dlo, dhi = _limits(desc['dpart'])
+    offc = bool(np.any(np.abs(dlo + dhi) > 1e-12 * (dhi - dlo)))
+    region = 'det-offcentre' if offc else 'det-centred'
+    strata = ['astra-vec:' + fname, 'astra-cls:' + cls, 'mode:' + mode,
+              'astra-' + region]
+    if offc:
+        strata.append('det-offcentre')
+    for key, tag in (('pitch', 'astra-helical'), ('translation',
+                                                  'astra-translation'),
+                     ('src_shift', 'astra-shifted'), ('det_shift',
+                                                      'astra-shifted')):
+        if g.get(key):
+            strata.append(tag)
+    apart = build_part(desc['apart'])
+    dpart = build_part(desc['dpart'])
+    geom, _ = build_geometry(g, apart, dpart)
+    ref = geomref.RefGeometry(g, src_shift=make_shift(g.get('src_shift'), n),
+                              det_shift=make_shift(g.get('det_shift'), n))
+    vec = np.asarray(_call('C19|astra-vec|raise', fname,
+                           getattr(astra_setup, fname), geom), dtype=float)
+    angles = np.array(geom.angles, dtype=float)
+    params = angles[None, :] if angles.ndim == 1 else angles
+    N = params.shape[1]
+    width = 6 if n == 2 else 12
+    sig = 'C19|astra-vec|' + fname + '|{}|' + region
+    if vec.shape != (N, width):
+        raise Violation(sig.format('shape'), 'shape {} expected {}'.format(
+            vec.shape, (N, width)))
+    mlo, mhi = _limits(desc['apart'])
+    amax = float(max(np.max(np.abs(mlo)), np.max(np.abs(mhi))))
+    S = (ref.scale() + abs(ref.pitch) * amax / (2 * np.pi) +
+         _shift_mag(g.get('src_shift')) + _shift_mag(g.get('det_shift')) +
+         float(max(np.max(np.abs(dlo)), np.max(np.abs(dhi)))))
+    amp = _init_amp(g)
+    tol = K_TOL * EPS * S * (1 + amax) * amp
+    centres = [_pixel_centres(pd) for pd in desc['dpart']]
+    shape = [len(c) for c in centres]
+    mid = [float(0.5 * (a + b)) for a, b in zip(dlo, dhi)]
+    rot90 = rr.rot2d(np.pi / 2)
+    for k in range(N):
+        m = [float(v) for v in params[:, k]]
+        marg = _single_arg(m)
+        row = vec[k]
+        if n == 2:
+            head, d, u = (rot90.dot(row[2 * i:2 * i + 2]) for i in range(3))
+            v = None
+        else:
+            head, d, u, v = (row[3 * i:3 * i + 3][::-1] for i in range(4))
+        if ref.divergent:
+            _require(head, ref.src(marg), tol, sig.format('src'),
+                     'row {} (angle {}): source position'.format(k, m))
+        else:
+            _require(head, -ref.det2src(marg, _single_arg(mid)),
+                     K_TOL * EPS * (1 + amax) * amp, sig.format('ray'),
+                     'row {} (angles {}): ray direction'.format(k, m))
+        corners = sorted({(i, j) for i in (0, shape[0] - 1)
+                          for j in ((0, shape[1] - 1) if n == 3 else (0,))})
+        for i, j in corners:
+            if n == 2:
+                got = d + (i - (shape[0] - 1) / 2.0) * u
+                darg = float(centres[0][i])
+            else:
+                got = (d + (i - (shape[0] - 1) / 2.0) * v +
+                       (j - (shape[1] - 1) / 2.0) * u)
+                darg = [float(centres[0][i]), float(centres[1][j])]
+            _require(got, ref.detpos(marg, darg), tol,
+                     sig.format('pixel-centres'),
+                     'row {} (angle {}): centre of detector pixel {} from '
+                     '(d, u, v) vs det_point_position at parameter {}'
+                     ''.format(k, m, (i, j) if n == 3 else i, darg))
+    return Outcome('ok', strata=strata, nontrivial=True)
+
+
 def run_case(desc):
     kind = desc['kind']
     try:
@@ -1605,6 +1741,8 @@ def run_case(desc):
             return run_geom(desc)
         if kind == 'detector':
             return run_detector(desc)
+        if kind == 'astra-vec':
+            return run_astra(desc)
     except _Excluded as e:
         return Outcome('excluded', strata=['excluded:' + e.fid],
                        notes={'excluded:' + e.fid: 1})
@@ -1775,9 +1913,9 @@ def _shift_desc(draw, k, allow_list):
 
 
 @st.composite
-def _part1d(draw, lo, hi, nmax=12, nmin=1):
+def _part1d(draw, lo, hi, nmax=12, nmin=1, uniform=False):
     n = draw(st.integers(nmin, nmax))
-    t = draw(st.sampled_from(['u', 'u', 'u', 'n']))
+    t = 'u' if uniform else draw(st.sampled_from(['u', 'u', 'u', 'n']))
     if t == 'n' and n >= 2:
         fr = sorted(set(_r(f) for f in draw(st.lists(
             st.floats(0.02, 0.98), min_size=n, max_size=n))))
@@ -1803,7 +1941,7 @@ def _angle_part(draw, nmax=12, long=False):
 
 
 @st.composite
-def _flat_part(draw, nmax=8):
+def _flat_part(draw, nmax=8, uniform=False):
     mode = draw(st.sampled_from(['sym', 'sym', 'asym', 'offcentre']))
     w = draw(st.sampled_from([1.0, 2.0, None, None]))
     if w is None:
@@ -1815,7 +1953,7 @@ def _flat_part(draw, nmax=8):
     else:
         lo = _r(w * draw(st.floats(0.1, 1.0)))
         hi = lo + w
-    return draw(_part1d(float(lo), float(hi), nmax=nmax))
+    return draw(_part1d(float(lo), float(hi), nmax=nmax, uniform=uniform))
 
 
 @st.composite
@@ -1827,7 +1965,11 @@ def _arc_part(draw, lim, nmax=8):
     return draw(_part1d(float(lo), float(hi), nmax=nmax))
 
 
-def _det_parts(kind):
+def _det_parts(kind, uniform=False):
+    if uniform:
+        # ASTRA vector geometries: flat detectors with equal pixels
+        return st.tuples(*[_flat_part(8, uniform=True) for _ in range(
+            1 if kind == 'flat1d' else 2)]).map(list)
     if kind == 'flat1d':
         return st.tuples(_flat_part(12)).map(list)
     if kind == 'circ':
@@ -1955,10 +2097,12 @@ def _ncells(p):
 
 
 @st.composite
-def _geom_case(draw):
-    cls = draw(st.sampled_from(['par2d', 'par3d_axis', 'par3d_euler',
-                                'par3d_euler', 'fan', 'fan', 'cone', 'cone',
-                                'cone']))
+def _geom_case(draw, astra=False):
+    cls = draw(st.sampled_from(
+        ['fan', 'fan', 'cone', 'cone', 'cone', 'par3d_axis', 'par3d_axis',
+         'par3d_euler'] if astra else
+        ['par2d', 'par3d_axis', 'par3d_euler', 'par3d_euler', 'fan', 'fan',
+         'cone', 'cone', 'cone']))
     n = geomref.NDIM[cls]
     dflt = geomref.DEFAULTS[cls]
     g = {'cls': cls, 'check_bounds': draw(st.sampled_from([True, True, True,
@@ -1975,7 +2119,7 @@ def _geom_case(draw):
         if g['det_radius'] is None or (g['det_radius'] == 0.0 and
                                        g['src_radius'] == 0.0):
             g['det_radius'] = _r(draw(st.floats(0.5, 20.0)))
-        if draw(st.booleans()):
+        if not astra and draw(st.booleans()):
             rc = draw(st.sampled_from([None, None, 2.0, 10.0]))
             if rc is None:
                 rc = _r(draw(st.floats(0.5, 30.0)))
@@ -2034,7 +2178,9 @@ def _geom_case(draw):
     else:
         M = 1
         apart = [draw(_angle_part(long=bool(g.get('pitch'))))]
-    dpart = draw(_det_parts(kind))
+    dpart = draw(_det_parts(kind, uniform=astra))
+    if astra:
+        return {'kind': 'astra-vec', 'g': g, 'apart': apart, 'dpart': dpart}
     desc = {'kind': 'geom', 'probe': draw(st.integers(0, 4)) == 0,
             'g': g, 'apart': apart, 'dpart': dpart,
             'pat': draw(_pattern(M, len(dpart), restricted=shifted)),
@@ -2129,7 +2275,7 @@ def _factory_case(draw):
 def strategy(tier):
     return st.one_of(_geom_case(), _geom_case(), _geom_case(), _geom_case(),
                      _geom_case(), _geom_case(), _detector_case(),
-                     _factory_case())
+                     _factory_case(), _geom_case(astra=True))
 
 
 REQUIRED_STRATA = [
@@ -2145,4 +2291,7 @@ REQUIRED_STRATA = [
     'factory:helical', 'coverage-evaluated', 'axis:generic', 'axis:anti',
     'det_pos_init:generic', 'src_to_det_init:generic',
     'det_axes_init:skew', 'det_axes_init:exact', 'translation:generic',
+    'astra-vec:astra_conebeam_3d_geom_to_vec',
+    'astra-vec:astra_conebeam_2d_geom_to_vec',
+    'astra-vec:astra_parallel_3d_geom_to_vec', 'det-offcentre',
 ]
